@@ -66,6 +66,9 @@ def r1_choice_recording(rule, root=None):
                 ct = T.norm(rec[0][0], rec[0][1])
                 if not (ct[0] == "choice" and val is not None and val[0] == "val" and ct[1] == val[1]):
                     probs.append("the recorded choice `%s` is not the choice half of the call whose value is stored (%s)" % (T.show(ct), T.show(val) if val else "?"))
+            exp = V.expected_value(variant) or []
+            if val is not None and val not in exp:
+                probs.append("the choice comes from `%s`; for %s Left must mean the first operand and Right the second, i.e. `%s`" % (T.show(val), variant, T.show(exp[0]) if exp else "?"))
             if len(rec) == 1 and len([c for c in A.calls_in(arm["body"], method="next") if A.ident(A.strip(c["recv"])) == it_name]) != 1:
                 probs.append("the choice iterator is advanced more than once")
             if len(flag) != 1:
